@@ -93,6 +93,19 @@ func genFile(r *Rand, name, prev string) *sfile {
 
 func (stageComp) Corpus() [][]string {
 	return [][]string{
+		// a staging extension in the MIDDLE of a legal name (`backup.part1.rar`, a directory `x.partial`, `c.cmp.full.z`):
+		// version 1 delivered, version 2 partly received and more than a day old, then the stray cleaner: the companion
+		// of the partial is found by cutting the extension off the END of the path; the partial of a version that was
+		// never delivered stays (seed C20e: strings.Replace(path, ".part", ".cmp", 1) looked at `backup.cmp1.rar.part`)
+		{"base ?", "recover 0", "prepare b.part1.rar 3 0", "recv b.part1.rar - - 3 b33.212.57 0 3 33.212.57 0", "settle 0", "observe",
+			"prepare b.part1.rar 4 0", "recv b.part1.rar - - 4 b1.2.3.4 0 2 1.2 0", "chtime b.part1.rar part -90000", "observe", "cleanstrays 0 b.part1.rar", "observe", "scan",
+			"recv b.part1.rar - - 4 b1.2.3.4 2 4 3.4 0", "settle 0", "observe", "status b.part1.rar 0 0"},
+		{"base ?", "recover 0", "prepare x.partial/q.wait.nc 3 0", "recv x.partial/q.wait.nc - - 3 b33.212.57 0 3 33.212.57 0", "settle 0", "observe",
+			"prepare x.partial/q.wait.nc 4 0", "recv x.partial/q.wait.nc - - 4 b1.2.3.4 0 2 1.2 0", "chtime x.partial/q.wait.nc part -90000", "observe", "cleanstrays 0 x.partial/q.wait.nc", "observe", "scan",
+			"recv x.partial/q.wait.nc - - 4 b1.2.3.4 2 4 3.4 0", "settle 0", "observe", "status x.partial/q.wait.nc 0 0"},
+		{"base ?", "recover 0", "prepare c.cmp.full.z 3 0", "recv c.cmp.full.z - - 3 b33.212.57 0 3 33.212.57 0", "settle 0", "observe",
+			"prepare c.cmp.full.z 4 0", "recv c.cmp.full.z - - 4 b1.2.3.4 0 2 1.2 0", "chtime c.cmp.full.z part -90000", "observe", "cleanstrays 0 c.cmp.full.z", "observe", "scan",
+			"recv c.cmp.full.z - - 4 b1.2.3.4 2 4 3.4 0", "settle 0", "observe", "status c.cmp.full.z 0 0"},
 		// single file, one part, delivered
 		{"base ?", "recover 0", "prepare a 3 0", "recv a - - 3 b1.2.3 0 3 1.2.3 0", "observe", "settle 0", "observe", "status a 0 0", "received a - - b1.2.3 0 0 3 0", "scan"},
 		// "how many of these parts did you receive": only the LEADING parts count (second part arrived, first did not)
@@ -433,11 +446,19 @@ func genStageDupCrash(r *Rand) []string {
 // of operation.
 func genStageScenario(r *Rand) []string {
 	ops := []string{"base ?", "recover 0"}
-	names := []string{"a", "ab", "d/a", "d/ab.nc", "b", "x.y"}
+	// names with a staging extension in the middle are legal names (the code must cut extensions off the END of a path)
+	names := []string{"a", "ab", "d/a", "d/ab.nc", "b", "x.y", "b.part1.rar", "x.partial/q.wait.nc", "c.cmp.full.z"}
 	r.Shuffle(len(names), func(i, j int) { names[i], names[j] = names[j], names[i] })
 	nf := r.Range(1, 4)
 	var files []*sfile
 	kind := r.Intn(8)
+	ghostOld := kind == 3 && r.Chance(0.5)
+	if ghostOld {
+		// the predecessor was delivered days ago: its record is found only when the log search has gone back far
+		// enough, one window per firing of the retry timer
+		g := genFile(r, "ghost", "")
+		ops = []string{"base ?", fmt.Sprintf("oldlog ghost - %s %d -%d", esc(g.hash), len(g.body), []int{90000, 180000, 260000, 400000}[r.Intn(4)]), "recover 0"}
+	}
 	for j := 0; j < nf; j++ {
 		prev := ""
 		switch kind {
@@ -497,7 +518,7 @@ func genStageScenario(r *Rand) []string {
 			idx[i], idx[j] = idx[j], idx[i]
 		}
 	}
-	if kind == 3 && r.Chance(0.5) {
+	if kind == 3 && !ghostOld && r.Chance(0.5) {
 		// the ghost predecessor was delivered in an earlier run: deliver it, then restart
 		g := genFile(r, "ghost", "")
 		send(g, partOrder(g))
@@ -558,7 +579,13 @@ func genStageScenario(r *Rand) []string {
 	if kind == 3 {
 		for _, f := range files {
 			if r.Chance(0.6) {
-				ops = append(ops, fmt.Sprintf("firetimer %s", esc(f.name)), "settle 0")
+				// the retry timer fires again and again: each time the log search goes one window further back
+				for k := r.Range(1, 5); k > 0; k-- {
+					ops = append(ops, fmt.Sprintf("firetimer %s", esc(f.name)), "settle 0")
+				}
+				if r.Chance(0.3) {
+					ops = append(ops, "observe")
+				}
 			}
 		}
 	}
